@@ -250,6 +250,17 @@ class ContainerMixin:
             raise Unsupported("comprehension with a mapping element")
         outs = []
         for q, src in self.ev(g.iter, p, R):
+            if not g.ifs and src.tag in ("gen", "pseq", "lref"):
+                # [x for x in xs]: a fresh list with the same elements in the same order
+                if src.tag == "lref":
+                    self.oblige(q, f"L{e.lineno}/iterate-None", src.z != L.LNONE, kind="safety")
+                    q.assume(src.z != L.LNONE)
+                    hq, sz = q.heap, src.z
+                    outs.append((q, self.new_list_fn(q, hq.llen(sz), lambda i: hq.litem(sz, i))))
+                else:
+                    sz = src.z
+                    outs.append((q, self.new_list_fn(q, L.Len(sz), lambda i: L.At(sz, i))))
+                continue
             if src.tag in ("gen", "pseq"):  # the yielded sequence of a contracted generator
                 outs.append((q, self.filter_list(q, src, g.target.id, g.ifs, R, e.lineno)))
                 continue
